@@ -415,7 +415,7 @@ static void make_init(SoPlex& s, Model& mo, PState& st, int init)
    st = defaults();
    mo = Model();
    if(init == INIT_EMPTY) return;
-   TinyLP lp = TinyLP::parse(LPTXT);
+   static const TinyLP lp = TinyLP::parse(LPTXT);
    load_real(s, lp, 0);      // sets OBJSENSE (minimize) and OBJ_OFFSET (3) through the typed setters
    mo = Model::from(lp);
    st.i[SoPlex::OBJSENSE] = SoPlex::OBJSENSE_MINIMIZE;
@@ -569,13 +569,21 @@ static void model_load(const std::string& path, PState& st, Ctx& c)
 // ---------------------------------------------------------------------------------------------------------------------
 // judging an object against the model
 // ---------------------------------------------------------------------------------------------------------------------
+static std::map<std::string, uint64_t> g_sigcount;   // per worker process
 struct Judge
 {
    Ctx& c;
-   std::string cs;       // case string
-   std::string pretty;   // human-readable description
+   std::function<std::string()> cs;       // case string (built only when needed)
+   std::function<std::string()> pretty;   // human-readable description
    bool bad = false;
-   void viol(const std::string& sig, const std::string& detail) { bad = true; c.violation(sig, cs, detail + " | " + pretty); }
+   void viol(const std::string& sig, const std::string& detail)
+   {
+      bad = true;
+      // the known findings about copies fire on every history that contains a copy: after the first 500 occurrences of a
+      // signature in a worker process further ones are only counted (keeps the result stream small); nothing is dropped silently
+      if(++g_sigcount[sig] > 500) { c.count("violations_counted_not_itemised." + sig); return; }
+      c.violation(sig, cs(), detail + " | " + pretty());
+   }
 };
 
 // getters + wiring + LP against the model; `op` is the short operation name used in wiring signatures, `opdesc` the full one,
@@ -880,7 +888,7 @@ static uint64_t run_single(const SCase& sc, Ctx& c)
    PState st;
    make_init(s, mo, st, sc.init);
    if(sc.pre) apply_pre(s, st, sc.p);
-   Judge j{c, sc.str(), sc.pretty()};
+   Judge j{c, [&]() { return sc.str(); }, [&]() { return sc.pretty(); }};
    std::string opdesc = sc.opdesc(), op = FENAME[sc.fe];
    // sanity of the starting point (also makes the pre-state part of the check)
    {
@@ -988,7 +996,7 @@ static uint64_t run_single(const SCase& sc, Ctx& c)
    if(!path.empty()) unlink(path.c_str());
    if(accepted && !(st == stBefore)) c.count("single.state_changing");
    c.state(std::to_string(sc.init) + ":" + st.digest());
-   if(c.wantSample() && (fnv_str(sc.str()) % 499) == 0)
+   if((fnv_str(st.digest()) % 97) == 0 && c.wantSample())
       c.sample("{\"case\":" + jstr(sc.pretty()) + ",\"expectation\":" + jstr(lenient ? "lenient" : wantAccept ? "accept" : "reject") + ",\"returned\":" + (r.ret ? "true" : "false") + "}");
    return 5 + (accepted ? 1 : 0) + fnv_str(st.digest());
 }
@@ -1074,7 +1082,7 @@ static uint64_t run_hist(const Hist& h, Ctx& c)
    Model mo;
    PState st;
    make_init(*sp, mo, st, h.init);
-   Judge j{c, h.str(), h.pretty()};
+   Judge j{c, [&]() { return h.str(); }, [&]() { return h.pretty(); }};
    std::string file = g_outdir + "/hist-" + std::to_string(getpid()) + ".set";
    unlink(file.c_str());
    bool haveFile = false;
@@ -1233,7 +1241,7 @@ static uint64_t run_hist(const Hist& h, Ctx& c)
       }
    }
    unlink(file.c_str());
-   if(c.wantSample() && h.ops.size() >= 2 && (fnv_str(h.str()) % 9973) == 0)
+   if(h.ops.size() >= 2 && (dig % 9973) == 0 && c.wantSample())
       c.sample("{\"history\":" + jstr(h.pretty()) + ",\"violation\":" + (j.bad ? "true" : "false") + "}");
    return dig;
 }
